@@ -31,6 +31,7 @@ r12=rows(12); n12,m12=len(r12),sum('missed at first' in x for x in r12)
 r13=rows(13); n13,m13=len(r13),sum('missed at first' in x for x in r13)
 r15=rows(15); n15,m15=len(r15),sum('missed at first' in x for x in r15)
 r16=rows(16); n16,m16=len(r16),sum('missed at first' in x for x in r16)
+r17=rows(17); n17,m17=len(r17),sum('missed at first' in x for x in r17)
 def nm(r): return len(r),sum('missed at first' in x for x in r)
 (n1,m1),(n2,m2),(n3,m3),(n4,m4),(n5,m5),(n6,m6),(n7,m7),(n8,m8),(n9,m9)=[nm(r) for r in (r1,r2,r3,r4,r5,r6,r7,r8,r9)]
 own=open('/verif/mutants/RESULTS.txt').read().strip().split('\n')
@@ -216,6 +217,18 @@ free-running pass under the race detector for every property but C07 (which had 
 | seed | property | detected by (scenario / clause) |
 |---|---|---|
 '''%(n16,n16-m16,m16)+'\n'.join(r16)+'''
+
+**Round 17** (%d changes; the brief of round 11 - "the least obvious clause of the property" -
+once more, with the list of clauses the earlier rounds had used up): %d detected as the checks
+stood, %d not. One of the two (C15-r17-2) showed that a deletion the mutation campaign had been
+read as equivalent - the AV1 depacketizer clearing its fragment buffer on a packet with Z=0 - is
+not: a packet whose last element is announced as the start of a fragment but carries no bytes
+never reaches the store that would replace the buffer. The other (C20-r17-1) is a nil-for-empty
+difference the checks do not demand on purpose, and is filed as not adopted.
+
+| seed | property | detected by (scenario / clause) |
+|---|---|---|
+'''%(n17,n17-m17,m17)+'\n'.join(r17)+'''
 
 What changed in response, as a rule rather than case by case: every property whose code handles a
 length, a count or an index now has a *scale* scenario next to its small-scope product, in which
